@@ -100,6 +100,10 @@ class Exec:
             return ("var", e["ref"]["id"], e["ref"]["name"])
         if k == "ArraySubscriptExpr":
             base, idx = self.ev(kids(e)[0]), self.ev(kids(e)[1])
+            if isinstance(base, list):
+                if not isinstance(idx, int) or idx < 0 or idx >= len(base):
+                    raise Problem("index %s outside the temporary array of %d elements at line %s" % (idx, len(base), e.get("l")))
+                return ("listelem", base, idx)
             if not isinstance(base, ArrPtr):
                 raise AnalysisBroken("subscript of a non-array at line %s" % e.get("l"))
             i = base.off + idx
@@ -156,6 +160,8 @@ class Exec:
             return self.out.get(l[1])
         if l[0] == "dict":
             return l[1][l[2]]
+        if l[0] == "listelem":
+            return l[1][l[2]]
         if l[0] == "result":
             return {"flags": ("flag", l[1][1]), "lastkey": l[1][2]}[l[2]]
         raise AnalysisBroken("load")
@@ -171,11 +177,15 @@ class Exec:
             self.this[l[1]] = v
         elif l[0] == "out":
             self.out[l[1]] = v
+        elif l[0] == "dict":
+            l[1][l[2]] = v
+        elif l[0] == "listelem":
+            l[1][l[2]] = v
 
     # ---- expressions ---------------------------------------------------------------
     def ev(self, e):
         self.steps += 1
-        if self.steps > 100000:
+        if self.steps > 2000000:
             raise AnalysisBroken("abstract execution does not terminate")
         e0 = e
         e = strip_casts(e)
@@ -207,13 +217,33 @@ class Exec:
             if op in ("++", "--"):
                 l = self.lv(kids(e)[0])
                 old = self.load(l)
+                if isinstance(old, ArrPtr):
+                    new = ArrPtr(old.node, old.field, old.off + (1 if op == "++" else -1))
+                    self.store(l, new)
+                    return old if e.get("postfix") else new
                 new = old + (1 if op == "++" else -1)
                 self.uint(new, e)
                 self.store(l, new)
                 return old if e.get("postfix") else new
             if op == "*":
+                inner = strip_casts(kids(e)[0])
+                if inner["k"] != "DeclRefExpr" or not isinstance(self.env.get(inner["ref"]["id"]), (ArrPtr, OutPtr)):
+                    p = self.ev(kids(e)[0])
+                    if isinstance(p, tuple) and p and p[0] == "valptr":
+                        return p[1]
+                    if isinstance(p, ArrPtr):
+                        self.check_index(p.node, p.field, p.off, e)
+                        return p.node.arr(p.field)[p.off]
+                    if isinstance(p, tuple) and p and p[0] == "lvptr":
+                        return self.load(p[1])
+                    if isinstance(p, OutPtr):
+                        return self.out.get(p.name)
+                    raise AnalysisBroken("dereference not understood at line %s" % e.get("l"))
                 return self.load(self.lv(e), e)
             if op == "&":
+                operand = strip_casts(kids(e)[0])
+                if "callee" in operand:
+                    return ("valptr", self.ev(operand))
                 return ("lvptr", self.lv(kids(e)[0]))
             v = self.ev(kids(e)[0])
             if op == "!":
@@ -260,6 +290,13 @@ class Exec:
             return ("obj", rec, [self.ev(a) for a in args])
         if k == "CXXScalarValueInitExpr":
             return 0
+        if k == "CXXNewExpr" and e.get("array"):
+            n = self.ev(kids(e)[0]) if kids(e) else 0
+            if not isinstance(n, int) or n < 0 or n > 100000:
+                raise Problem("new[] of %s elements at line %s" % (n, e.get("l")))
+            return [dict(first=None, second=None) for _ in range(n)]
+        if k == "CXXDeleteExpr":
+            return None
         if "callee" in e:
             return self.call(e)
         raise AnalysisBroken("expression not understood at line %s: %s (%s)" % (e.get("l"), dtable.describe(e)[:80], k))
@@ -276,6 +313,8 @@ class Exec:
             return ArrPtr(a.node, a.field, a.off + (b if op == "+" else -b))
         if isinstance(b, ArrPtr) and isinstance(a, int) and op == "+":
             return ArrPtr(b.node, b.field, b.off + a)
+        if isinstance(a, ArrPtr) and isinstance(b, ArrPtr) and a.node is b.node and a.field == b.field and op in ("-", "==", "!=", "<", "<=", ">", ">="):
+            return self.arith(op, a.off, b.off, e)
         if op in ("==", "!="):
             if isinstance(a, (Node, type(None))) or isinstance(b, (Node, type(None))):
                 r = a is b
@@ -384,6 +423,22 @@ class Exec:
             self.check_index(obj, "slotdata", idx, e)
             obj.slotdata[idx] = v
             return None
+        if name in ("operator-", "operator==", "operator!=", "operator<") and len(args) == 2:
+            a, b = self.ev(args[0]), self.ev(args[1])
+            if isinstance(a, ArrPtr):
+                return self.arith(name[8:], a, b, e)
+        if name in ("operator++", "operator--") and args:
+            l = self.lv(args[0])
+            old = self.load(l)
+            if isinstance(old, ArrPtr):
+                new = ArrPtr(old.node, old.field, old.off + (1 if name == "operator++" else -1))
+                self.store(l, new)
+                return old if len(args) == 2 else new
+        if name == "operator*" and len(args) == 1:
+            p = self.ev(args[0])
+            if isinstance(p, ArrPtr):
+                self.check_index(p.node, p.field, p.off, e)
+                return p.node.arr(p.field)[p.off]
         if name in ("operator|=",) and len(args) == 2:
             l = self.lv(args[0])
             a, b = self.load(l), self.ev(args[1])
@@ -444,7 +499,21 @@ class Exec:
         elif k == "ContinueStmt":
             raise _Continue()
         elif k == "ForStmt":
-            raise AnalysisBroken("for loop at line %s inside a fragment that should be loop-free" % s.get("l"))
+            init, cond, inc, body = kids(s)
+            self.stmt(init)
+            for _ in range(100000):
+                if cond is not None and not self.truth(self.ev(cond)):
+                    break
+                try:
+                    self.stmt(body)
+                except _Break:
+                    break
+                except _Continue:
+                    pass
+                if inc is not None:
+                    self.ev(inc)
+            else:
+                raise AnalysisBroken("loop at line %s does not terminate in the model" % s.get("l"))
         elif k == "NullStmt":
             pass
         elif k in ("CStyleCastExpr",):
